@@ -4,6 +4,7 @@
 set -u
 patch=$(realpath "$1"); shift
 bin=${GODICHECK:-/verif/bin/godicheck}
+export GOCACHE=${GODICHECK_SWEEP_CACHE:-/tmp/godicheck-sweep-cache}; mkdir -p "$GOCACHE"
 d=$(mktemp -d /tmp/trypatch.XXXXXX)
 trap 'rm -rf "$d"' EXIT
 rsync -a --exclude .git /repo/ "$d/repo/"
